@@ -610,6 +610,9 @@ PROPS["C17"]["require"]["quick"]["cases_with_octet_ge_128_beyond_the_first"] = 8
 PROPS["C07"]["require"]["quick"]["connectors_that_gave_up_during_or_right_after_the_handshake"] = 300
 PROPS["C07"]["require"]["quick"]["connectors_paired_next_to_one_that_gave_up"] = 200
 PROPS["C07"]["require"]["quick"]["connectors_bound_to_the_wildcard_address"] = 300
+PROPS["C07"]["require"]["quick"]["connects_queued_at_an_endpoint_the_acceptor_left"] = 400
+PROPS["C13"]["require"]["quick"]["nodes_behind_two_nats"] = 300
+PROPS["C19"]["require"]["quick"]["udp_sends_refused_with_would_block"] = 150
 PROPS["C06"]["require"]["quick"]["writing_sockets_moved_with_segments_in_flight"] = 20000
 PROPS["C06"]["require"]["quick"]["accepts_issued_after_the_connect"] = 150
 PROPS["C05"]["require"]["quick"]["idle_connected_sockets_moved_between_phases"] = 600
